@@ -199,6 +199,7 @@ type Service struct {
 	*Mux
 	state          int32
 	nc             Conn                   // NATS Server connection
+	ncmu           sync.RWMutex           // Protects nc from being cleared on Shutdown while it is being used
 	inCh           chan *nats.Msg         // Channel for incoming nats messages
 	rwork          map[string]*work       // map of resource work
 	workqueue      []*work                // Resource work queue.
@@ -341,7 +342,19 @@ func (s *Service) ProtocolVersion() string {
 //
 //	nc := service.Conn().(*nats.Conn)
 func (s *Service) Conn() Conn {
+	s.ncmu.RLock()
+	defer s.ncmu.RUnlock()
 	return s.nc
+}
+
+// publish publishes the payload on the subject, or returns errNotStarted if
+// the service has no connection because it is stopped.
+func (s *Service) publish(subj string, payload []byte) error {
+	nc := s.Conn()
+	if nc == nil {
+		return errNotStarted
+	}
+	return nc.Publish(subj, payload)
 }
 
 // infof logs a formatted info entry.
@@ -663,7 +676,9 @@ func (s *Service) serve(nc Conn) error {
 	// Initialize fields
 	inCh := make(chan *nats.Msg, s.inChannelSize)
 	workCh := make(chan *work, 1)
+	s.ncmu.Lock()
 	s.nc = nc
+	s.ncmu.Unlock()
 	s.inCh = inCh
 	s.workcond = sync.Cond{L: &s.mu}
 	s.workbuf = make([]*work, s.inChannelSize)
@@ -719,7 +734,9 @@ func (s *Service) Shutdown() error {
 	verifPoint("shutdown.drained", nil)
 
 	s.inCh = nil
+	s.ncmu.Lock()
 	s.nc = nil
+	s.ncmu.Unlock()
 
 	atomic.StoreInt32(&s.state, stateStopped)
 
@@ -1083,7 +1100,7 @@ func (s *Service) event(subj string, data interface{}) {
 	if err == nil {
 		s.tracef("<-- %s: %s", subj, payload)
 		verifPoint("publish.before", subj)
-		err = s.nc.Publish(subj, payload)
+		err = s.publish(subj, payload)
 	}
 	if err != nil {
 		s.errorf("Error sending event %s: %s", subj, err)
@@ -1095,7 +1112,7 @@ func (s *Service) event(subj string, data interface{}) {
 func (s *Service) rawEvent(subj string, payload []byte) {
 	s.tracef("<-- %s: %s", subj, payload)
 	verifPoint("publish.before", subj)
-	err := s.nc.Publish(subj, payload)
+	err := s.publish(subj, payload)
 	if err != nil {
 		s.errorf("Error sending event %s: %s", subj, err)
 	}
